@@ -30,7 +30,7 @@ var families = map[string]family{
 		idPool: []string{"1", "2", "3", `"a"`, "4", "5"}, Ks: []int{1, 2, 3, 8}, push: []bool{false, false, true}, builtin: []bool{true, false}, steps: 18},
 	"c02": {name: "c02", wFeedCall: 3, wFeedNote: 2, wFeedBatch: 8, wFeedInvalid: 12, wFeedReply: 5, wFeedRaw: 4, wFeedBytes: 14, wGate: 10, wBuiltin: 1, wPush: 3, wCbCtx: 1,
 		idPool: []string{"1", "2", `"a"`, "0", "-1", "1.5", "1e3", `""`, `"\u0031"`}, Ks: []int{1, 3}, push: []bool{false, true}, builtin: []bool{true, false}, steps: 20},
-	"c03": {name: "c03", wFeedCall: 5, wFeedNote: 8, wFeedBatch: 6, wFeedInvalid: 1, wGate: 12, wCancel: 1, wPush: 1,
+	"c03": {name: "c03", wFeedCall: 5, wFeedNote: 8, wFeedBatch: 6, wFeedInvalid: 1, wGate: 12, wCancel: 1, wPush: 1, wBuiltin: 1,
 		idPool: []string{"1", "2", "3", "4", "5", "6"}, Ks: []int{1, 2, 4, 8}, push: []bool{false, true}, builtin: []bool{true}, steps: 20},
 	"c06": {name: "c06", wFeedCall: 4, wFeedNote: 2, wFeedBatch: 10, wGate: 12, wCancel: 4, wBuiltin: 2,
 		idPool: []string{"1", "2", "3", "4", "5", "6", "7", "8"}, Ks: []int{1, 2, 3, 5}, push: []bool{false}, builtin: []bool{true}, steps: 20},
@@ -445,6 +445,103 @@ func (s *scen) epilogue(restart bool) {
 	}
 }
 
+// scriptFor returns the scripted history that replaces the random walk of scenario idx of a family, if any.
+// Scripted histories reach situations a walk of twenty steps practically never does; they go through the same
+// model acceptance and monitors as every other scenario.
+func scriptFor(fam string, idx int) func(*scen) {
+	switch {
+	case (fam == "c08" || fam == "c01") && idx%24 == 7:
+		return scriptNotesOnlyBatch
+	case (fam == "c09" || fam == "c03") && idx%40 == 11:
+		return scriptBurstBehindCallback
+	}
+	return nil
+}
+
+// scriptNotesOnlyBatch: one inbound array holding only notifications; the LAST member's handler returns while the
+// others are still running; the server is stopped and WaitStatus called: it may return only once every handler has.
+func scriptNotesOnlyBatch(s *scen) {
+	r, g := s.r, s.g
+	n := 2 + g.intn(3)
+	var ms []member
+	var toks []string
+	for i := 0; i < n; i++ {
+		t := s.newTok()
+		toks = append(toks, "["+t+"]")
+		ms = append(ms, mkNote("g", t))
+	}
+	r.feedMsgs(true, ms, false)
+	r.drain(s.pickParked)
+	// the handlers that have entered, in the order of the batch
+	r.mu.Lock()
+	started := append([]string(nil), r.started...)
+	r.mu.Unlock()
+	isStarted := func(p string) bool {
+		for _, q := range started {
+			if q == p {
+				return true
+			}
+		}
+		return false
+	}
+	if last := toks[n-1]; isStarted(last) {
+		r.gate(last, gateMsg{res: "true"})
+		r.drain(s.pickParked)
+	}
+	switch g.intn(3) {
+	case 0:
+		r.callStop()
+	case 1:
+		r.feedErr("eof")
+	default:
+		r.feedErr("other")
+	}
+	r.drain(s.pickParked)
+	r.feedErr("eof")
+	r.drain(s.pickParked)
+	r.callWait()
+	r.drain(s.pickParked)
+	if g.chance(1, 2) && isStarted(toks[0]) {
+		r.gate(toks[0], gateMsg{res: "true"})
+		r.drain(s.pickParked)
+	}
+}
+
+// scriptBurstBehindCallback: a notification handler awaits a callback while the peer pipelines well over a hundred
+// further records before it sends the reply: the reply must still be read and delivered (the reader never stalls
+// behind the dispatch queue), and everything queued is served afterwards.
+func scriptBurstBehindCallback(s *scen) {
+	r, g := s.r, s.g
+	t0 := s.newTok()
+	r.feedMsgs(false, []member{mkNote("g", t0)}, false)
+	r.drain(s.pickParked)
+	p0 := "[" + t0 + "]"
+	r.mu.Lock()
+	ok := len(r.started) == 1 && r.started[0] == p0 && r.notes[p0]
+	r.mu.Unlock()
+	if !ok {
+		return
+	}
+	r.handlerPush(p0, true, "pc", "")
+	r.drain(s.pickParked)
+	burst := 130 + g.intn(40)
+	for i := 0; i < burst; i++ {
+		if g.chance(1, 5) {
+			r.feedMsgs(false, []member{mkCall(pick(g, s.f.idPool), "g", s.newTok())}, false)
+		} else {
+			r.feedMsgs(false, []member{mkNote("g", s.newTok())}, false)
+		}
+		if i%16 == 15 {
+			r.drain(s.pickParked)
+		}
+	}
+	r.drain(s.pickParked)
+	r.feedMsgs(false, []member{mkReplyResult("1", "true")}, false)
+	r.drain(s.pickParked)
+	r.gate(p0, gateMsg{res: "true"})
+	r.drain(s.pickParked)
+}
+
 // runServerScenario runs one scenario in its own synctest bubble and returns its log.
 func runServerScenario(t *testing.T, fam string, seed uint64, idx int, out *bufio.Writer) {
 	f, ok := families[fam]
@@ -453,6 +550,13 @@ func runServerScenario(t *testing.T, fam string, seed uint64, idx int, out *bufi
 	}
 	g := newRng(seed*1000003 + uint64(idx))
 	cfg := srvConfig{K: pick(g, f.Ks), push: pick(g, f.push), builtin: pick(g, f.builtin), unblock: g.chance(1, 2), methods: []string{"g"}}
+	if scriptFor(fam, idx) != nil {
+		// the scripted histories need room for two handlers at once, and pushes
+		cfg.push = true
+		if cfg.K < 2 {
+			cfg.K = 3
+		}
+	}
 	policy := "random"
 	if idx%3 == 0 {
 		policy = "fifo"
@@ -475,9 +579,13 @@ func runServerScenario(t *testing.T, fam string, seed uint64, idx int, out *bufi
 		r.log.item("scenario\t%s\t%d\t%d\t%s", fam, seed, idx, policy)
 		r.start()
 		s.sched()
-		n := f.steps/2 + g.intn(f.steps)
-		for i := 0; i < n; i++ {
-			s.step()
+		if script := scriptFor(fam, idx); script != nil && policy != "race" {
+			script(s)
+		} else {
+			n := f.steps/2 + g.intn(f.steps)
+			for i := 0; i < n; i++ {
+				s.step()
+			}
 		}
 		s.epilogue(f.wRestart > 0 && g.chance(f.wRestart, 4))
 		// discipline monitors
